@@ -10,6 +10,10 @@ import (
 	"testing"
 	"time"
 
+	"github.com/fiorix/go-diameter/diam"
+	"github.com/fiorix/go-diameter/diam/avp"
+	"github.com/fiorix/go-diameter/diam/datatype"
+
 	"github.com/free5gc/chf/pkg/abmf"
 	"github.com/free5gc/chf/pkg/rf"
 	"verif.local/vs"
@@ -70,6 +74,9 @@ func c18RunJob(t *testing.T, raw json.RawMessage) (any, error) {
 	var out c18RunOut
 	if a.Subs > 0 {
 		return c18SubscribersJob(t, a)
+	}
+	if a.Outage == "abmf-rejects" {
+		return c18RejectingPeerJob(t, a)
 	}
 	if a.Outage != "" {
 		return c18OutageJob(t, a)
@@ -175,6 +182,57 @@ func c18OutageJob(t *testing.T, a c18RunArgs) (any, error) {
 			vs.Quiesce()
 			s := w.Snapshot(true)
 			out.After = [2]int{s.Open, s.Gor}
+		})
+	}, nil)
+	if o.Panic != "" || o.Res.Err != "" {
+		out.Engine = o.Panic + o.Res.Err
+	}
+	if o.Res.Deadlock {
+		out.Fail = append(out.Fail, fmt.Sprint("blocked forever: ", o.Res.Blocked))
+	}
+	return out, nil
+}
+
+// c18RejectingPeerJob: the account-balance peer answers every capabilities exchange with a negative result
+// (DIAMETER_TOO_BUSY) and leaves it to the client to close the transport, as RFC 6733 allows. Every update completes
+// (without a grant); the connections dialled for it must not stay open.
+func c18RejectingPeerJob(t *testing.T, a c18RunArgs) (any, error) {
+	var out c18RunOut
+	cfg := WorldCfg{Accounts: []Account{{supiA, 1, "100000000", "1"}}, HorizonS: 24 * 3600, StepCap: 50_000_000, NoABMF: true}
+	o := runWorld(t, cfg, nil, func(w *World) {
+		vs.Go("T1", func() {
+			mux := diam.NewServeMux()
+			mux.HandleFunc("CER", func(c diam.Conn, m *diam.Message) {
+				ans := m.Answer(diam.TooBusy)
+				ans.NewAVP(avp.OriginHost, avp.Mbit, 0, datatype.DiameterIdentity("busy-abmf"))
+				ans.NewAVP(avp.OriginRealm, avp.Mbit, 0, datatype.DiameterIdentity("go-diameter"))
+				ans.WriteTo(c)
+			})
+			go diam.ListenAndServeTLS("127.0.0.1:3869", certPem, certKey, mux, nil)
+			vs.Quiesce()
+			h := w.ExecOps([]string{supiA}, []Op{mkCreate(0, "smf1")}, 1, false)
+			if len(h.Sess) == 0 {
+				out.Fail = append(out.Fail, "create failed")
+				return
+			}
+			for n := 0; n < a.N; n++ {
+				op := Op{K: "update", S: 0, MUs: []MU{{RG: 1, Req: 50, Conts: []Cont{{Vol: 0, Seq: int32(n)}}}}, Seq: int32(n)}
+				r := w.Do("POST", ccBase+"/chargingdata/"+h.Sess[0].Ref+"/update", op.Request(supiA), nil)
+				if r.Code != 200 {
+					out.Fail = append(out.Fail, fmt.Sprintf("update %d answered %d", n, r.Code))
+				}
+				vs.Quiesce()
+				time.Sleep(30 * time.Second)
+				vs.Quiesce()
+				s := w.Snapshot(true)
+				out.Open = append(out.Open, s.Open+s.Half)
+				out.Gor = append(out.Gor, s.Gor)
+				out.Dials = s.Dials
+			}
+			time.Sleep(time.Duration(a.Settle) * time.Second)
+			vs.Quiesce()
+			s := w.Snapshot(true)
+			out.After = [2]int{s.Open + s.Half, s.Gor}
 		})
 	}, nil)
 	if o.Panic != "" || o.Res.Err != "" {
@@ -293,6 +351,11 @@ func init() {
 			sa := c18RunArgs{N: n, UEs: 1, Subs: n, Settle: 60}
 			jobs = append(jobs, Job{Kind: "c18run", Args: mustJSON(sa)})
 			descr = append(descr, sa)
+			if n == 10 {
+				ra := c18RunArgs{N: 10, UEs: 1, Outage: "abmf-rejects", Settle: 60}
+				jobs = append(jobs, Job{Kind: "c18run", Args: mustJSON(ra)})
+				descr = append(descr, ra)
+			}
 			if n <= 100 {
 				// a peer that is down for n/2 + 15 updates (20, 65), then comes up
 				for _, peer := range []string{"rf", "abmf"} {
@@ -313,6 +376,9 @@ func init() {
 			}
 			if a.Outage != "" {
 				name = fmt.Sprintf("%s peer down for %d updates, then up", a.Outage, a.N)
+			}
+			if a.Outage == "abmf-rejects" {
+				name = fmt.Sprintf("account-balance peer rejects the capabilities exchange, %d updates", a.N)
 			}
 			if r.Crash != "" {
 				rep.Finding("process-crash-or-timeout", name+": "+oneLine(r.Crash, 300), map[string]any{"job": json.RawMessage(jobs[i].Args), "kind": "c18run"})
@@ -340,7 +406,11 @@ func init() {
 			}
 			if len(o.Open) > base && (maxOpen > bOpen || maxGor > bGor) {
 				last := len(o.Open) - 1
-				rep.Finding("resources-grow-with-requests", fmt.Sprintf("%s: open connections after request %d: %d, after request %d: %d; goroutines %d -> %d; %d dials; after %d s of quiet: %d connections, %d goroutines",
+				rule := "resources-grow-with-requests"
+				if a.Outage == "abmf-rejects" {
+					rule += "/peer-rejects-capabilities-exchange" // positively recognised known defect (go-diameter's dial)
+				}
+				rep.Finding(rule, fmt.Sprintf("%s: open connections after request %d: %d, after request %d: %d; goroutines %d -> %d; %d dials; after %d s of quiet: %d connections, %d goroutines",
 					name, base, bOpen, last+1, o.Open[last], bGor, o.Gor[last], o.Dials, a.Settle, o.After[0], o.After[1]), map[string]any{"job": json.RawMessage(jobs[i].Args), "kind": "c18run"})
 			}
 			runs = append(runs, map[string]any{"run": name, "max_open_connections": maxOpen, "max_goroutines": maxGor, "dials": o.Dials, "after_settle": o.After})
